@@ -337,6 +337,14 @@ class ULPIRxEventDecoder(Elaboratable):
             with m.If(self.rx_active & ~rx_active):
                 m.d.comb += self.rx_stop.eq(1)
 
+        # A receive can also end by the PHY simply releasing the bus, without a final RxCmd. RxActive can't be
+        # set while the PHY isn't driving the bus; make sure we don't remember a stale RxActive (in which case
+        # we wouldn't notice the start of the next packet).
+        # (RxActive is encoded together with RxError / HostDisconnect in bits 4 and 5; clearing just bit 4 of
+        # an RxError encoding would turn it into HostDisconnect.)
+        with m.If(~self.ulpi.dir.i & self.last_rx_command[4]):
+            m.d.usb += self.last_rx_command[4:6].eq(0)
+
 
         # Break the most recent RxCmd into its UTMI-equivalent signals.
         # From table 3.8.1.2 in the ULPI spec; rev 1.1/Oct-20-2004.
